@@ -34,14 +34,6 @@ import (
 //     nil                     iff  otherwise the reader ended with io.EOF;
 //     the reader's error      otherwise.
 
-// The package initializer of `network` calls the initializers of all its
-// imports; the engine's sync/atomic pattern model mistakes `sync/atomic.init`
-// for an atomic operation (see notes/engine_requests.md). Initializers of other
-// packages run lazily anyway, so these calls are no-ops.
-//
-//verif:noop sync/atomic.init
-//verif:noop internal/runtime/atomic.init
-
 var errVerifC43Reader = errors.New("verif: underlying reader failed")
 
 const (
